@@ -6,7 +6,7 @@ import builtins
 
 from ..astutil import (dotted, call_name, receiver, txt, enum_member,
                        calls_in, walk_local, enclosing_chain,
-                       lexically_inside)
+                       lexically_inside, get_arg)
 from ..cfg import CFG
 from ..loader import AnalysisError
 
@@ -1409,3 +1409,162 @@ def check_wait_sent(ctx):
                 ctx.decide('WAIT', wrk.func,
                            f'{txt(call)} under `with {cond}`',
                            with_node is not None, at=wrk.func.where(call))
+
+
+# ------------------------------------------------------------ CLOCK-SRC ---
+
+WALL_CLOCKS = {'time.time', 'time.time_ns'}
+LOCAL_ORIGIN_CLOCKS = {'time.perf_counter', 'time.perf_counter_ns',
+                       'time.monotonic', 'time.monotonic_ns',
+                       'time.process_time', 'time.process_time_ns',
+                       'time.thread_time', 'time.thread_time_ns',
+                       'timeit.default_timer', 'time.clock'}
+
+
+def _clock_origins(program, func, expr, depth=0):
+    """Set of origins of a recorded clock: "wall" (time.time: seconds since
+    the epoch, comparable between runs, processes and reboots), "local:<fn>"
+    (a clock whose origin is arbitrary: perf_counter, monotonic, process
+    time) or "unknown:<text>".  Follows local names, `with K() as x` /
+    `x = K()` objects of package classes and their `self.<attr>` stores."""
+    from ..loader import ClassInfo
+    if depth > 4:
+        return {'unknown:depth'}
+    if isinstance(expr, ast.Call):
+        res = program.resolve_name_expr(func.module, expr.func, func)
+        if isinstance(res, tuple) and res[0] == 'ext':
+            if res[1] in WALL_CLOCKS:
+                return {'wall'}
+            if res[1] in LOCAL_ORIGIN_CLOCKS:
+                return {f'local:{res[1]}'}
+        if call_name(expr) in ('float', 'int') and expr.args:
+            return _clock_origins(program, func, expr.args[0], depth + 1)
+        return {f'unknown:{txt(expr)[:40]}'}
+    if isinstance(expr, ast.Name):
+        defs = [n.value for n in walk_local(func.node)
+                if isinstance(n, ast.Assign) and any(
+                    isinstance(t, ast.Name) and t.id == expr.id
+                    for t in n.targets)]
+        if not defs:
+            return {f'unknown:{expr.id}'}
+        out = set()
+        for val in defs:
+            out |= _clock_origins(program, func, val, depth + 1)
+        return out
+    if isinstance(expr, ast.Attribute) and isinstance(expr.value, ast.Name):
+        base = expr.value.id
+        makers = []
+        for node in walk_local(func.node):
+            if isinstance(node, ast.With):
+                for item in node.items:
+                    if isinstance(item.optional_vars, ast.Name) and \
+                            item.optional_vars.id == base:
+                        makers.append(item.context_expr)
+            if isinstance(node, ast.Assign) and any(
+                    isinstance(t, ast.Name) and t.id == base
+                    for t in node.targets):
+                makers.append(node.value)
+        out = set()
+        for maker in makers:
+            klass = program.resolve_name_expr(
+                func.module, maker.func, func) if isinstance(
+                    maker, ast.Call) else None
+            if not isinstance(klass, ClassInfo):
+                out.add(f'unknown:{txt(maker)[:40]}')
+                continue
+            stores = []
+            for meth in klass.methods.values():
+                for node in walk_local(meth.node):
+                    if isinstance(node, ast.Assign) and any(
+                            txt(t) == f'self.{expr.attr}'
+                            for t in node.targets) and not (
+                                isinstance(node.value, ast.Constant) and
+                                node.value.value is None):
+                        stores.append((meth, node.value))
+            if not stores:
+                out.add(f'unknown:{klass.name}.{expr.attr}')
+            for meth, val in stores:
+                out |= _clock_origins(program, meth, val, depth + 1)
+        return out or {f'unknown:{txt(expr)[:40]}'}
+    return {f'unknown:{txt(expr)[:40]}'}
+
+
+def check_clock_src(ctx):
+    """The clocks persisted with a task (start_clock / end_clock) are
+    compared with those of OTHER runs of the job, possibly in another process
+    or after a reboot: they must be wall-clock readings (time.time()).
+    perf_counter / monotonic / process_time have an arbitrary origin that
+    changes from one process (or boot) to the next, so a task persisted
+    before looks newer or older than its dependencies at random.
+
+    Sites: arguments of set_start_end_clock, start_clock= / end_clock=
+    keywords, 'start_clock' / 'end_clock' dictionary keys and subscript
+    stores; a function that records one of its own parameters is a setter
+    and the arguments of its calls become sites (fixpoint)."""
+    program = ctx.program
+    funcs = [f for m in program.modules.values()
+             if m.name.startswith('valjean.cosette')
+             for f in m.functions.values()]
+    # setter name -> {(kind, positional index or None, keyword name)}
+    setters = {'set_start_end_clock': {('start', 1, 'start'),
+                                       ('end', 2, 'end')}}
+    decided = {}
+    changed = True
+    while changed:
+        changed = False
+        for func in funcs:
+            sites = []
+            for call in calls_in(func.node):
+                for kind, pos, kwd in setters.get(call_name(call), ()):
+                    arg = get_arg(call, pos, kwd)
+                    if arg is not None:
+                        sites.append((kind, arg, call))
+                for kwd in call.keywords:
+                    if kwd.arg in ('start_clock', 'end_clock'):
+                        sites.append((kwd.arg[:-6], kwd.value, call))
+            for node in walk_local(func.node):
+                if isinstance(node, ast.Dict):
+                    for key, val in zip(node.keys, node.values):
+                        if isinstance(key, ast.Constant) and key.value in (
+                                'start_clock', 'end_clock'):
+                            sites.append((key.value[:-6], val, node))
+                if isinstance(node, ast.Assign):
+                    for tgt in node.targets:
+                        if isinstance(tgt, ast.Subscript) and isinstance(
+                                tgt.slice, ast.Constant) and \
+                                tgt.slice.value in ('start_clock',
+                                                    'end_clock'):
+                            sites.append((tgt.slice.value[:-6], node.value,
+                                          node))
+            for kind, arg, where in sites:
+                if isinstance(arg, ast.Name) and arg.id in func.params:
+                    # a setter forwarding its parameter
+                    plist = [p for p in func.params
+                             if p not in ('self', 'cls')]
+                    args = func.node.args
+                    positional = [a.arg for a in args.posonlyargs + args.args
+                                  if a.arg not in ('self', 'cls')]
+                    pos = positional.index(arg.id) \
+                        if arg.id in positional else None
+                    entry = (kind, pos, arg.id)
+                    if entry not in setters.setdefault(func.name, set()) \
+                            and arg.id in plist:
+                        setters[func.name].add(entry)
+                        changed = True
+                    continue
+                key = (func.key, kind, txt(where)[:50])
+                if key in decided:
+                    continue
+                origins = _clock_origins(program, func, arg)
+                decided[key] = (func, kind, where, origins)
+    for func, kind, where, origins in decided.values():
+        local = sorted(o for o in origins if o.startswith('local:'))
+        ctx.decide(
+            'CLOCK-SRC', func,
+            f'{kind} clock recorded by {txt(where)[:50]}',
+            False if local else True if origins == {'wall'} else None,
+            at=func.where(where),
+            detail={'origins': sorted(origins),
+                    'why': 'a clock with an arbitrary origin is persisted '
+                           'and compared across runs' if local else None})
+    ctx.floor('CLOCK-SRC', len(decided), 2, 'recorded start / end clocks')
